@@ -792,6 +792,43 @@ fn composites(op: &Op, sh: &RefSheet, aux: &[(&'static str, Rect)], only_kind: O
     out.into_iter().collect()
 }
 
+/// Tags of a panicking removal: "<op>/<kind>/<alignment>/near-origin" for every rectangle-like object (merge,
+/// conditional-format range, filter, comment box) with an endpoint e on the edited axis lying inside the removed
+/// band and within the first n lines (p <= e <= n), i.e. whose translation by -n would leave the sheet at the origin.
+fn near_origin_tags(op: &Op, sh: &RefSheet, aux: &[(&'static str, Rect)], prefix: &str) -> Vec<String> {
+    let mut out = BTreeSet::new();
+    if let Some((ax, p, n, false)) = edit_of(op) {
+        let name = op.name();
+        let mut objs: Vec<(&'static str, (u32, u32))> = vec![];
+        for m in &sh.merges {
+            objs.push(("merge", m.span(ax)));
+        }
+        for (_, rs) in &sh.cfs {
+            for r in rs {
+                objs.push(("cf", r.span(ax)));
+            }
+        }
+        if let Some(f) = &sh.filter {
+            objs.push(("filter", f.span(ax)));
+        }
+        for (k, r) in aux {
+            objs.push((*k, r.span(ax)));
+        }
+        for (kind, span) in objs {
+            let hit = |e: u32| e >= p && e <= n;
+            if hit(span.0) || hit(span.1) {
+                if kind == "comment-anchor" {
+                    // the box of a comment is not part of the model and may already be degenerate: no alignment class
+                    out.insert(format!("{}{}/{}/near-origin", prefix, name, kind));
+                } else {
+                    out.insert(format!("{}{}/{}/{}/near-origin", prefix, name, kind, align_of(op, span)));
+                }
+            }
+        }
+    }
+    out.into_iter().collect()
+}
+
 fn qualifiers(op: &Op) -> Vec<String> {
     let mut q = vec![];
     match op {
@@ -1289,11 +1326,11 @@ impl Machine for C07Machine {
         let r = std::panic::catch_unwind(std::panic::AssertUnwindSafe(|| apply_real(&mut book, op)));
         if let Err(e) = r {
             let msg = panic_msg(&e);
-            let mut more = composites(op, &s.model[t], &s.raw[t].2, None, "");
+            let mut more = near_origin_tags(op, &s.model[t], &s.raw[t].2, "");
             if wb {
                 for i in 0..nsheets {
                     if i != t {
-                        more.extend(composites(op, &s.model[i], &s.raw[i].2, None, "other-sheet:"));
+                        more.extend(near_origin_tags(op, &s.model[i], &s.raw[i].2, "other-sheet:"));
                     }
                 }
             }
